@@ -541,6 +541,38 @@ func c07EqualPairs(c *Case) {
 				}
 			}
 		}
+		// an UPDATE that assigns the key the equal value of the other
+		// representation addresses the same row: its other assignment lands
+		// on that row, whichever representation the key keeps, and the row
+		// stays one row (draws nothing from the case's PRNG)
+		if c.Res.Status != "violated" {
+			erru := conn.Exec("update "+vt+" set k = ?, a = ? where k = ?", b, "upd", a)
+			c.Count("equal_key_assigned_by_update", 1)
+			// an implementation may refuse to assign the key at all; then the
+			// row is as it was. Accepted, the assignment is on that one row.
+			wantA := "t:upd"
+			if cl := errClass(erru); cl != "ok" {
+				wantA = "t:first"
+				c.Count("equal_key_assignment_refused", 1)
+			}
+			for _, probe := range []interface{}{a, b} {
+				rv, err := conn.Rows("select a from "+vt+" where k = ?", probe)
+				if err != nil || len(rv) != 1 || rv[0] != wantA {
+					c.Violate("C07:equal-pair:update-to-equal-key-lost", fmt.Sprintf("%s: after UPDATE SET k = second, a = 'upd' WHERE k = first (%v), select a where k = %s is %v (err %v), want one row %s", desc, erru, lit(probe), rv, err, wantA), nil)
+					break
+				}
+			}
+			rv, err := conn.Rows("select count(*), count(distinct k) from " + vt)
+			if err == nil && len(rv) == 1 {
+				parts := strings.Split(rv[0], "|")
+				if parts[0] != parts[1] {
+					c.Violate("C07:equal-pair:twin-rows", fmt.Sprintf("%s: after UPDATE to the equal key the table has %s rows but %s distinct keys", desc, parts[0], parts[1]), nil)
+				}
+			}
+			if _, err := conn.Rows("select * from " + vt + " order by k"); err != nil {
+				c.Violate("C07:equal-pair:scan-error", desc+": scan after UPDATE to the equal key fails: "+err.Error(), nil)
+			}
+		}
 		// delete the first, then insert the other representation: it may be
 		// refused or accepted, but it must stay one key and a sound table
 		if c.Res.Status != "violated" {
